@@ -520,8 +520,11 @@ def finish(ctx, level, rule, explanation=None):
         cov["explanation"] = explanation
     ev = {"property_id": ctx.prop, "tier": ctx.tier, "seed": ctx.seed, "level": level, "coverage": cov,
           "assumptions": ctx.assumptions, "wall_s": round(time.time() - ctx.t0, 1), "violations": len(real)}
-    os.makedirs(os.path.join(VERIF, "evidence"), exist_ok=True)
-    with open(os.path.join(VERIF, "evidence", ctx.prop + ".json"), "w") as f:
+    # (a run pointed at another checkout -- VERIF_REPO, used to try the checks on seeded changes -- says nothing about
+    # /repo: its evidence goes elsewhere, as do its replay files)
+    evdir = os.path.join(VERIF, "evidence") if REPO == "/repo" else os.path.join("/var/tmp", "verif-evidence-" + os.path.basename(REPO.rstrip("/")))
+    os.makedirs(evdir, exist_ok=True)
+    with open(os.path.join(evdir, ctx.prop + ".json"), "w") as f:
         json.dump(ev, f, indent=1, default=str)
     print("RESULT property=%s tier=%s seed=%d states=%d transitions=%d replayed=%d distinct=%d traces=%d violations=%d known=%d nonconf=%d wall=%.1fs"
           % (ctx.prop, ctx.tier, ctx.seed, ctx.states, ctx.transitions, ctx.evaluations, ctx.distinct, ctx.traces,
